@@ -13,7 +13,7 @@ the sub-strategies' steps changes the world only through booked battery calls.
 Not proved here (see notes): the equality "station entry at the connector = station power" as an invariant of the
 complete step (it needs a key-frame lemma for the shared greedy / balanced model).
 -/
-import SpiceEv.Proofs.StratDistributedBooked
+import SpiceEv.Proofs.StratDistributedKeys
 set_option linter.unusedSectionVars false
 set_option linter.unusedVariables false
 namespace SpiceEv
@@ -107,7 +107,7 @@ theorem C06_distributed_virtual_moved {B : Type} (dops : DOps α B) (saved : α)
 theorem C06_distributed_limits_restored {B : Type} (dops : DOps α B) (law : BatLaw dops.bat)
     (hex : UnloadExact dops.bat) (htot : AvailTotal dops.bat) (de : DEnv α)
     (hed : 0 ≤ de.deps.eps) (heo : 0 ≤ de.opps.eps) (he : 0 ≤ de.env.eps)
-    (hd : de.deps.ps = none) (ho : de.opps.ps = none)
+    (hd : de.deps.isRule) (ho : de.opps.isRule)
     (s s' : DState α B) (cmds : List (String × α))
     (hgb : ∀ g, ((sdGet s.init.gcBattery g).getD []).Nodup)
     (hmin : ∀ b ∈ s.world.batteries, 0 ≤ b.minChargingPower)
@@ -174,6 +174,54 @@ theorem C06_distributed_final_pass_keeps_booked {B : Type} (ops : BatOps α B) (
     (h : distributeSurplusOn ops env w ids = .ok (w', cmds')) :
     ∀ s ∈ w'.stations, ∀ g ∈ w'.gcs, g.id = s.parent → (sdGet g.loads s.id).getD 0 = s.currentPower :=
   (distributeSurplusOn_booked ops law env w w' ids cmds' ⟨hb, hd⟩ h).1
+
+/-- **After the complete step every station's entry at its connector equals the station's power** (repaired model,
+fixes/DIST2.diff) — for sub-strategies greedy, balanced, peak_shaving, peak_load_window.  With the premises of
+`C05_distributed_station_upper` (distinct connector ids, maxima ≥ 0, no station / virtual-station entries at the beginning,
+`gc_battery` ids are no station ids, virtual stations belong to their battery's connector, `SideOK`) and additionally: no
+station id is the id of a stationary battery of the world, no virtual station's name `stationary_<b>` is a station id
+(`LoopHyp2`), and — a premise for a peak_shaving / peak_load_window sub-strategy only (`SideKF`; proved for greedy /
+balanced: `ruleStep_keyFrame`) — the sub-strategy's step changes connector entries only under the ids of the stations and
+batteries of its virtual world and keeps the station ids and battery ids.
+Then after `Distributed.step`: for every station `s` and every connector `g` with `g.id = s.parent`, the entry of `g`
+under `s.id` (0 if absent) is `s.current_power` — the loop over the connectors (write-back of every virtual world, DIST2,
+battery support / virtual-vehicle bookkeeping of opportunity stations) and the final surplus pass included. -/
+theorem C06_distributed_booked {B : Type} (dops : DOps α B) (law : BatLaw dops.bat) (de : DEnv α)
+    (hsd : SideOK dops de.deps de) (hso : SideOK dops de.opps de)
+    (hkd : SideKF dops de.deps de) (hko : SideKF dops de.opps de)
+    (s s' : DState α B) (cmds : List (String × α))
+    (hgnd : (s.world.gcs.map (·.id)).Nodup)
+    (hmax : ∀ st ∈ s.world.stations, 0 ≤ st.maxPower) (hvirt : ∀ st ∈ s.init.virtualCs, 0 ≤ st.maxPower)
+    (hyp : LoopHyp (resetStations s.world) s.init (s.world.stations.map (·.id)))
+    (hyp2 : LoopHyp2 s.init (s.world.stations.map (·.id)) (s.world.batteries.map (·.id)))
+    (h : step dops de s = .ok (s', cmds)) :
+    ∀ st ∈ s'.world.stations, ∀ g ∈ s'.world.gcs, g.id = st.parent → (sdGet g.loads st.id).getD 0 = st.currentPower :=
+  (step_booked dops law de hsd hso hkd hko s s' cmds hgnd hmax hvirt hyp hyp2 h).1
+
+/-- the same for sub-strategies greedy / balanced (no premise on the sub-strategies) -/
+theorem C06_distributed_booked_rule {B : Type} (dops : DOps α B) (law : BatLaw dops.bat) (de : DEnv α)
+    (hd : de.deps.isRule) (ho : de.opps.isRule)
+    (s s' : DState α B) (cmds : List (String × α))
+    (hgnd : (s.world.gcs.map (·.id)).Nodup)
+    (hmax : ∀ st ∈ s.world.stations, 0 ≤ st.maxPower) (hvirt : ∀ st ∈ s.init.virtualCs, 0 ≤ st.maxPower)
+    (hyp : LoopHyp (resetStations s.world) s.init (s.world.stations.map (·.id)))
+    (hyp2 : LoopHyp2 s.init (s.world.stations.map (·.id)) (s.world.batteries.map (·.id)))
+    (h : step dops de s = .ok (s', cmds)) :
+    ∀ st ∈ s'.world.stations, ∀ g ∈ s'.world.gcs, g.id = st.parent → (sdGet g.loads st.id).getD 0 = st.currentPower :=
+  C06_distributed_booked dops law de (by simp [SideOK, hd.1, hd.2]) (by simp [SideOK, ho.1, ho.2])
+    (by simp [SideKF, hd.1, hd.2]) (by simp [SideKF, ho.1, ho.2]) s s' cmds hgnd hmax hvirt hyp hyp2 h
+
+/-- Non-vacuity of `C06_distributed_booked`: `toyState` meets every premise and the step returns. -/
+example : ∃ s' cmds, step (toyDOps 5) toyEnv toyState = .ok (s', cmds) ∧
+    ∀ st ∈ s'.world.stations, ∀ g ∈ s'.world.gcs, g.id = st.parent → (sdGet g.loads st.id).getD 0 = st.currentPower := by
+  have hok : (step (toyDOps 5) toyEnv toyState).toBool = true := by decide +kernel
+  cases h : step (toyDOps 5) toyEnv toyState with
+  | error e => rw [h] at hok; cases hok
+  | ok r =>
+    obtain ⟨s', cmds⟩ := r
+    obtain ⟨hyp, hnd, hmax, hvirt⟩ := toyState_loopHyp
+    exact ⟨s', cmds, rfl, C06_distributed_booked_rule (toyDOps 5) (toyOps_law 5 (by norm_num)) toyEnv ⟨rfl, rfl⟩
+      ⟨rfl, rfl⟩ toyState s' cmds hnd hmax hvirt hyp toyState_loopHyp2 h⟩
 
 /-- Non-vacuity of the two booking theorems: after the step on `toyState` (whose connectors carry no station
 entries before) every station's entry equals its power: CS_v1_opps 11 = 11, CS_v2_deps 11 = 11. -/
